@@ -1009,6 +1009,16 @@ class Evaluator:
         return result
 
     def compare(self, op, a, b, node):
+        # a constant array against a constant: element-wise truth values (for numpy.all / numpy.any)
+        for x_, y_, swap in ((a, b, False), (b, a, True)):
+            if isinstance(x_, Arr) and isinstance(y_, (Rat, int, float)) and not isinstance(y_, bool) and x_.shape != () \
+                    and all(isinstance(e_, Rat) and e_.is_const() for e_ in x_.flat()) and scalar(y_).is_const():
+                def recb(d):
+                    if isinstance(d, list):
+                        return [recb(e_) for e_ in d]
+                    return self.compare(op, y_, d, node) if swap else self.compare(op, d, y_, node)
+                return recb(x_.data)
+
         def norm(v):
             if isinstance(v, Rat):
                 if v.is_const():
@@ -1174,6 +1184,19 @@ class Evaluator:
 
     def e_Subscript(self, node, env):
         base = self.eval(node.value, env)
+        if isinstance(base, (Arr, Opaque)) and not isinstance(node.slice, (ast.Slice, ast.Tuple, ast.Constant)):
+            sel = self.eval(node.slice, env)
+            if isinstance(sel, Arr) and len(sel.shape) == 1:
+                sel = list(sel.data)
+            if isinstance(sel, list) and sel and all(const_int(x) is not None for x in sel):
+                A = base if isinstance(base, Arr) else materialise(base)
+                if A is None:
+                    raise AnalysisError("E3: row selection from an array of unknown shape (line %d)" % node.lineno)
+                try:
+                    rows = [A.data[const_int(i)] for i in sel]
+                except IndexError:
+                    return self.index_error(node)
+                return Arr([list(r) if isinstance(r, list) else r for r in rows])
         if isinstance(base, tuple) and base and base[0] == "import":
             # a table of another module indexed by a (symbolic) key: opaque row
             return Opaque("%s[%s]" % (base[1], vkey(self.eval(node.slice, env))))
@@ -1784,9 +1807,13 @@ class Evaluator:
                 for i in range(min(A.shape)):
                     tot = tot + scalar(A.data[i][i])
                 return tot
+        if name == "concatenate" and len(args) == 2 and isinstance(args[0], (list, tuple)) and const_int(args[1]) is not None and not kwargs:
+            args, kwargs = [args[0]], {"axis": args[1]}
         if name in ("hstack", "vstack", "concatenate", "stack") and len(args) == 1 and isinstance(args[0], (list, tuple)) \
                 and set(kwargs) <= {"axis"}:
             parts = [x if isinstance(x, Arr) else materialise(x) for x in args[0]]
+            # an empty block (zeros((0, k))) contributes nothing
+            parts = [p for p in parts if p is None or (p.shape != () and 0 not in p.shape)] or parts[:1]
             axis = const_int(kwargs.get("axis", 0))
             if all(p is not None for p in parts) and parts and axis is not None:
                 ranks = {len(p.shape) for p in parts}
@@ -1838,6 +1865,14 @@ class Evaluator:
                 return Arr(recc(A.data))
             if isinstance(args[0], (Rat, int, float)):
                 return cl(args[0])
+        if name == "sort" and len(args) == 1 and not kwargs:
+            A = args[0] if isinstance(args[0], Arr) else (materialise(args[0]) if isinstance(args[0], (list, tuple)) else None)
+            if A is not None and len(A.shape) == 1 and all(scalar(x).is_const() for x in A.data):
+                return Arr(sorted((scalar(x) for x in A.data), key=lambda r_: r_.const_value()))
+        if name == "random.rand" and args and all(const_int(a_) is not None for a_ in args) and not kwargs:
+            cnt = self.__dict__.setdefault("_nrand", [0])
+            cnt[0] += 1
+            return materialise(Opaque("rand#%d" % cnt[0], tuple(const_int(a_) for a_ in args)))
         if name == "linalg.qr" and len(args) == 1 and not kwargs:
             A = args[0] if isinstance(args[0], Arr) else materialise(args[0])
             if A is not None and len(A.shape) == 2 and A.shape[0] >= A.shape[1]:
@@ -1852,7 +1887,34 @@ class Evaluator:
         if name == "linalg.solve" and len(args) == 2:
             return self.np_dot(self.np_call("linalg.inv", [args[0]], {}, node), args[1], node)
         if name == "linalg.det" and len(args) == 1:
+            A = args[0] if isinstance(args[0], Arr) else materialise(args[0])
+            if A is not None and len(A.shape) in (2, 3) and A.shape[-1] == A.shape[-2] <= 3 and all(scalar(x).is_const() for x in A.flat()):
+                def det_(m):
+                    m = [[scalar(x) for x in r] for r in m]
+                    if len(m) == 1:
+                        return m[0][0]
+                    if len(m) == 2:
+                        return m[0][0] * m[1][1] - m[0][1] * m[1][0]
+                    return (m[0][0] * (m[1][1] * m[2][2] - m[1][2] * m[2][1]) - m[0][1] * (m[1][0] * m[2][2] - m[1][2] * m[2][0])
+                            + m[0][2] * (m[1][0] * m[2][1] - m[1][1] * m[2][0]))
+                return det_(A.data) if len(A.shape) == 2 else Arr([det_(m) for m in A.data])
             return Rat.atom("det(%s)" % vkey(args[0]))
+        if name in ("all", "any") and len(args) == 1 and not kwargs:
+            def flatb(v):
+                if isinstance(v, bool):
+                    return [v]
+                if isinstance(v, (list, tuple)):
+                    out = []
+                    for x in v:
+                        f = flatb(x)
+                        if f is None:
+                            return None
+                        out += f
+                    return out
+                return None
+            fb = flatb(args[0])
+            if fb is not None:
+                return all(fb) if name == "all" else any(fb)
         if name in ("concatenate", "linalg.qr", "unique", "argsort", "sort", "arange", "clip", "max", "min",
                     "fliplr", "flipud", "mod", "allclose", "random.rand", "linalg.eig", "empty", "hstack", "vstack", "stack", "outer",
                     "trace", "argmin", "argmax", "where", "isclose", "any", "all"):
